@@ -311,13 +311,46 @@ def case_lit(c, res):
         quant = "(Some {| q_text := %s; q_objs := %s; q_ents := %s; q_acts := %s |})" % (
             cstr(c["domain_text"]), clist(["(%s, %s)" % (cstr(n), cstr(t)) for n, t in c["objects"]]),
             clist(["(%s, %s)" % (cstr(n), cstr(t)) for n, t in c["ents"]]), acts)
-    if sites == "None" and quant == "None" and c["names"] == all_names(c["groups"], c["trailing"]):
+    if sites == "None" and quant == "None" and c.get("raw") is None and c["names"] == all_names(c["groups"], c["trailing"]):
         return "tc %s %s %s %s %s" % (cgroups(c["groups"]), clist([cstr(x) for x in c["trailing"]]), cobs(types),
                                       cstr(table), cstr(edges))
     return ("{| c_groups := %s; c_trailing := %s; c_names := %s; c_types := %s; c_table := %s; c_edges := %s; "
-            "c_sites := %s; c_quant := %s |}" % (cgroups(c["groups"]), clist([cstr(x) for x in c["trailing"]]),
-                                                 clist([cstr(x) for x in c["names"]]), cobs(types), cstr(table),
-                                                 cstr(edges), sites, quant))
+            "c_sites := %s; c_quant := %s; c_raw := %s |}" % (
+                cgroups(c["groups"]), clist([cstr(x) for x in c["trailing"]]), clist([cstr(x) for x in c["names"]]),
+                cobs(types), cstr(table), cstr(edges), sites, quant,
+                "(Some %s)" % csexps(c["raw"]) if c.get("raw") is not None else "None"))
+
+
+def csexps(toks):
+    return clist([("SList %s" % csexps(t)) if isinstance(t, list) else "Atom %s" % cstr(t) for t in toks])
+
+
+def raw_text(toks):
+    return " ".join("(%s)" % raw_text(t) if isinstance(t, list) else t for t in toks)
+
+
+def raw_atoms(toks):
+    out = []
+    for t in toks:
+        out += raw_atoms(t) if isinstance(t, list) else [t]
+    return out
+
+
+def mk_raw_case(toks):
+    """a (:types ...) body that is NOT a list of groups + trailing names (a list where a name is expected, a dangling dash, ...):
+    no expectation from the property, the implementation is compared with the model"""
+    names = sorted(set(x for x in raw_atoms(toks) if x != "-") | {"object"})
+    return {"groups": [], "trailing": [], "names": names, "kind": "raw-shape", "sites": False, "witness_of": None, "raw": toks,
+            "domain_text": "(define (domain c06) (:requirements :typing) (:types %s) (:predicates (p ?x - object)))" % raw_text(toks)}
+
+
+RAW_SHAPES = [
+    ["-", ["x"]],                       # a list right after a dash while no name is pending: assigned to nobody, accepted
+    ["-", ["x"], "a", "-", "b"], ["a", "-", "b", "-", ["x"]], ["-", ["x", "y"], "-", ["z"], "a"], ["-", []],
+    ["a", "-", ["x"]], ["a", "b", "-", ["x"], "c"], [["a"], "-", "x"], [["a"]], ["a", ["b"]], ["a", "-"], ["-"], ["-", "-"],
+    ["-", "x"], ["-", "x", "a", "-", "x"], ["a", "-", "b", "-", "c"], ["a", "-", "-"], ["a", "-", "-", "-", "b"],
+    ["a", "-", "b", "-"], ["-", ["x"], "-"],
+]
 
 
 def make_cyclic(groups, trailing, rng):
@@ -452,6 +485,8 @@ def build_cases(rng, tier, seed=0):
     for gs, tr in corpus:
         cases.append(mk_case(gs, tr, "corpus", sites=False))
     cases.append(mk_case([(["a"], "b"), (["b"], "c"), (["c"], "d")], ["e"], "corpus", sites=True, rng=rng))
+    for toks in RAW_SHAPES:
+        cases.append(mk_raw_case(toks))
     # 2. fixtures shipped with the repository
     for path, gs, tr in fixture_sections(12 if tier == "quick" else None):
         cases.append(mk_case(gs, tr, "fixture", sites=False))
